@@ -5,6 +5,7 @@ import Mathlib.Analysis.SpecialFunctions.Log.Deriv
 import Mathlib.Analysis.SpecialFunctions.ExpDeriv
 import Mathlib.Analysis.SpecialFunctions.Sqrt
 import Mathlib.Analysis.SpecialFunctions.Trigonometric.Basic
+import Mathlib.Analysis.SpecialFunctions.Trigonometric.Deriv
 import Mathlib.Analysis.Calculus.Deriv.Inv
 import Mathlib.Tactic.Ring
 import Mathlib.Tactic.FieldSimp
@@ -18,6 +19,7 @@ noncomputable instance : Transc ℝ where
   exp := Real.exp
   log := Real.log
   cos := Real.cos
+  sin := Real.sin
   sqrt := Real.sqrt
   sinc := fun x => if x = 0 then 1 else Real.sin (Real.pi * x) / (Real.pi * x)
   pi := Real.pi
@@ -289,4 +291,254 @@ theorem satRec_at_zero (m0 t1 : ℝ) : satRec m0 t1 0 = 0 := by
   rw [satRec_eq, zero_div, neg_zero, Real.exp_zero]; ring
 theorem monoExp_at_zero (m0 td : ℝ) : monoExp m0 td 0 = m0 := by
   rw [monoExp_eq, zero_div, neg_zero, Real.exp_zero]; ring
+
+/-! ### `tss`, `wasabi`, `wasabiti`: closed forms at ℝ and their partial derivatives -/
+
+theorem sq_eq (x : ℝ) : sq x = x * x := rfl
+theorem sinc_eq (x : ℝ) : (sinc x : ℝ) = if x = 0 then 1 else Real.sin (Real.pi * x) / (Real.pi * x) := rfl
+theorem sinc_of_ne (x : ℝ) (h : x ≠ 0) : (sinc x : ℝ) = Real.sin (Real.pi * x) / (Real.pi * x) := by
+  rw [sinc_eq, if_neg h]
+theorem dsinc_eq (x : ℝ) : dsinc x = (Real.cos (Real.pi * x) - sinc x) / x := rfl
+
+/-- `d/dx sinc x = (cos(πx) − sinc x)/x` for `x ≠ 0` -/
+theorem hasDerivAt_sinc (x : ℝ) (hx : x ≠ 0) : HasDerivAt (fun y : ℝ => (sinc y : ℝ)) (dsinc x) x := by
+  have hpi : Real.pi ≠ 0 := Real.pi_ne_zero
+  have hlin : HasDerivAt (fun y : ℝ => Real.pi * y) (Real.pi * 1) x := (hasDerivAt_id x).const_mul Real.pi
+  have H : HasDerivAt (fun y : ℝ => Real.sin (Real.pi * y) / (Real.pi * y))
+      ((Real.cos (Real.pi * x) * (Real.pi * 1) * (Real.pi * x) - Real.sin (Real.pi * x) * (Real.pi * 1))
+        / (Real.pi * x) ^ 2) x :=
+    hlin.sin.div hlin (mul_ne_zero hpi hx)
+  have H' : HasDerivAt (fun y : ℝ => (sinc y : ℝ))
+      ((Real.cos (Real.pi * x) * (Real.pi * 1) * (Real.pi * x) - Real.sin (Real.pi * x) * (Real.pi * 1))
+        / (Real.pi * x) ^ 2) x := by
+    refine H.congr_of_eventuallyEq ?_
+    filter_upwards [eventually_ne_nhds hx] with y hy
+    exact sinc_of_ne y hy
+  refine H'.congr_deriv ?_
+  rw [dsinc_eq, sinc_of_ne x hx]
+  field_simp
+
+/-- chain rule through `sinc(tp·√u)²`, the common core of `wasabi` and `wasabiti` -/
+theorem hasDerivAt_sq_sinc_sqrt {u : ℝ → ℝ} {u' p0 : ℝ} (tp : ℝ) (hu : HasDerivAt u u' p0)
+    (hx : tp * Real.sqrt (u p0) ≠ 0) :
+    HasDerivAt (fun p : ℝ => sq (sinc (tp * Real.sqrt (u p)) : ℝ))
+      (2 * sinc (tp * Real.sqrt (u p0)) * (dsinc (tp * Real.sqrt (u p0)) * (tp * (u' / (2 * Real.sqrt (u p0)))))) p0 := by
+  have hs : Real.sqrt (u p0) ≠ 0 := right_ne_zero_of_mul hx
+  have hu0 : u p0 ≠ 0 := fun h => hs (by rw [h, Real.sqrt_zero])
+  have H1 : HasDerivAt (fun p : ℝ => tp * Real.sqrt (u p)) (tp * (u' / (2 * Real.sqrt (u p0)))) p0 :=
+    (hu.sqrt hu0).const_mul tp
+  have H2 : HasDerivAt (fun p : ℝ => (sinc (tp * Real.sqrt (u p)) : ℝ))
+      (dsinc (tp * Real.sqrt (u p0)) * (tp * (u' / (2 * Real.sqrt (u p0))))) p0 :=
+    (hasDerivAt_sinc _ hx).comp p0 H1
+  have H3 := H2.mul H2
+  refine H3.congr_deriv ?_
+  ring
+
+/-! #### TransientSteadyStateWithPreparation -/
+theorem tss_eq (m0 t1 alpha ts tr scal delay : ℝ) : tss m0 t1 alpha ts tr scal delay =
+    m0 / (1 - t1 * (Real.log (Real.cos alpha) / tr)) +
+      (m0 + (m0 * scal - m0) * Real.exp (-(delay / t1)) - m0 / (1 - t1 * (Real.log (Real.cos alpha) / tr))) *
+        Real.exp (-ts * (1 / t1 - Real.log (Real.cos alpha) / tr)) := rfl
+theorem tss_dm0_eq (m0 t1 alpha ts tr scal delay : ℝ) : tss_dm0 m0 t1 alpha ts tr scal delay =
+    1 / (1 - t1 * (Real.log (Real.cos alpha) / tr)) +
+      (1 + (scal - 1) * Real.exp (-(delay / t1)) - 1 / (1 - t1 * (Real.log (Real.cos alpha) / tr))) *
+        Real.exp (-ts * (1 / t1 - Real.log (Real.cos alpha) / tr)) := rfl
+theorem tss_dt1_eq (m0 t1 alpha ts tr scal delay : ℝ) : tss_dt1 m0 t1 alpha ts tr scal delay =
+    m0 * (Real.log (Real.cos alpha) / tr) /
+        ((1 - t1 * (Real.log (Real.cos alpha) / tr)) * (1 - t1 * (Real.log (Real.cos alpha) / tr))) +
+      ((m0 * scal - m0) * (Real.exp (-(delay / t1)) * (delay / (t1 * t1))) -
+        m0 * (Real.log (Real.cos alpha) / tr) /
+          ((1 - t1 * (Real.log (Real.cos alpha) / tr)) * (1 - t1 * (Real.log (Real.cos alpha) / tr)))) *
+        Real.exp (-ts * (1 / t1 - Real.log (Real.cos alpha) / tr)) +
+      (m0 + (m0 * scal - m0) * Real.exp (-(delay / t1)) - m0 / (1 - t1 * (Real.log (Real.cos alpha) / tr))) *
+        (Real.exp (-ts * (1 / t1 - Real.log (Real.cos alpha) / tr)) * (ts / (t1 * t1))) := rfl
+theorem tss_dalpha_eq (m0 t1 alpha ts tr scal delay : ℝ) : tss_dalpha m0 t1 alpha ts tr scal delay =
+    m0 * (t1 * (-(Real.sin alpha / Real.cos alpha) / tr)) /
+        ((1 - t1 * (Real.log (Real.cos alpha) / tr)) * (1 - t1 * (Real.log (Real.cos alpha) / tr))) *
+        (1 - Real.exp (-ts * (1 / t1 - Real.log (Real.cos alpha) / tr))) +
+      (m0 + (m0 * scal - m0) * Real.exp (-(delay / t1)) - m0 / (1 - t1 * (Real.log (Real.cos alpha) / tr))) *
+        (Real.exp (-ts * (1 / t1 - Real.log (Real.cos alpha) / tr)) *
+          (ts * (-(Real.sin alpha / Real.cos alpha) / tr))) := rfl
+
+theorem tss_hasDerivAt_m0 (m0 t1 alpha ts tr scal delay : ℝ) :
+    HasDerivAt (fun m => tss m t1 alpha ts tr scal delay) (tss_dm0 m0 t1 alpha ts tr scal delay) m0 := by
+  have hid : HasDerivAt (fun m : ℝ => m) 1 m0 := hasDerivAt_id' m0
+  have hM := hid.div_const (1 - t1 * (Real.log (Real.cos alpha) / tr))
+  have hS := hid.add (((hid.mul_const scal).sub hid).mul_const (Real.exp (-(delay / t1))))
+  have H := hM.add ((hS.sub hM).mul_const (Real.exp (-ts * (1 / t1 - Real.log (Real.cos alpha) / tr))))
+  refine H.congr_deriv ?_
+  rw [tss_dm0_eq]
+  ring
+
+theorem tss_hasDerivAt_t1 (m0 t1 alpha ts tr scal delay : ℝ) (h : t1 ≠ 0)
+    (hden : 1 - t1 * (Real.log (Real.cos alpha) / tr) ≠ 0) :
+    HasDerivAt (fun t => tss m0 t alpha ts tr scal delay) (tss_dt1 m0 t1 alpha ts tr scal delay) t1 := by
+  have hD : HasDerivAt (fun t : ℝ => 1 - t * (Real.log (Real.cos alpha) / tr))
+      (-(1 * (Real.log (Real.cos alpha) / tr))) t1 :=
+    ((hasDerivAt_id' t1).mul_const _).const_sub 1
+  have hM := (hasDerivAt_const t1 m0).fun_div hD hden
+  have hS := ((hasDerivAt_exp_neg_div delay t1 h).const_mul (m0 * scal - m0)).const_add m0
+  have hE := (((hasDerivAt_const_div 1 t1 h).sub_const (Real.log (Real.cos alpha) / tr)).const_mul (-ts)).exp
+  have H := hM.fun_add ((hS.fun_sub hM).fun_mul hE)
+  refine H.congr_deriv ?_
+  rw [tss_dt1_eq]
+  ring
+
+theorem tss_hasDerivAt_alpha (m0 t1 alpha ts tr scal delay : ℝ) (hcos : Real.cos alpha ≠ 0)
+    (hden : 1 - t1 * (Real.log (Real.cos alpha) / tr) ≠ 0) :
+    HasDerivAt (fun a => tss m0 t1 a ts tr scal delay) (tss_dalpha m0 t1 alpha ts tr scal delay) alpha := by
+  have hL : HasDerivAt (fun a : ℝ => Real.log (Real.cos a) / tr) (-Real.sin alpha / Real.cos alpha / tr) alpha :=
+    ((Real.hasDerivAt_cos alpha).log hcos).div_const tr
+  have hD := (hL.const_mul t1).const_sub 1
+  have hM := (hasDerivAt_const alpha m0).fun_div hD hden
+  have hE := ((hL.const_sub (1 / t1)).const_mul (-ts)).exp
+  have H := hM.fun_add ((hM.const_sub (m0 + (m0 * scal - m0) * Real.exp (-(delay / t1)))).fun_mul hE)
+  refine H.congr_deriv ?_
+  rw [tss_dalpha_eq]
+  ring
+
+/-- without preparation (`delay = 0`, `scal = 1`) the magnetisation starts at `m0` -/
+theorem tss_no_preparation (m0 t1 alpha ts tr : ℝ) :
+    tss m0 t1 alpha ts tr 1 0 =
+      m0 / (1 - t1 * (Real.log (Real.cos alpha) / tr)) +
+        (m0 - m0 / (1 - t1 * (Real.log (Real.cos alpha) / tr))) *
+          Real.exp (-ts * (1 / t1 - Real.log (Real.cos alpha) / tr)) := by
+  rw [tss_eq]; ring
+
+/-! #### WASABI -/
+theorem wasabi_eq (b0 rb1 c d offset tp b1nom gamma : ℝ) : wasabi b0 rb1 c d offset tp b1nom gamma =
+    c - d * sq (Real.pi * (b1nom * rb1) * gamma * tp) *
+      sq (sinc (tp * Real.sqrt (sq (b1nom * rb1 * gamma) + sq (offset - b0)))) := rfl
+theorem wasabi_db0_eq (b0 rb1 c d offset tp b1nom gamma : ℝ) : wasabi_db0 b0 rb1 c d offset tp b1nom gamma =
+    d * sq (Real.pi * (b1nom * rb1) * gamma * tp) *
+      -(2 * sinc (tp * Real.sqrt (sq (b1nom * rb1 * gamma) + sq (offset - b0))) *
+        (dsinc (tp * Real.sqrt (sq (b1nom * rb1 * gamma) + sq (offset - b0))) *
+          (tp * (-((offset - b0) / Real.sqrt (sq (b1nom * rb1 * gamma) + sq (offset - b0))))))) := rfl
+theorem wasabi_drb1_eq (b0 rb1 c d offset tp b1nom gamma : ℝ) : wasabi_drb1 b0 rb1 c d offset tp b1nom gamma =
+    d * -(2 * (Real.pi * (b1nom * rb1) * gamma * tp) * (Real.pi * b1nom * gamma * tp) *
+        sq (sinc (tp * Real.sqrt (sq (b1nom * rb1 * gamma) + sq (offset - b0)))) +
+      sq (Real.pi * (b1nom * rb1) * gamma * tp) *
+        (2 * sinc (tp * Real.sqrt (sq (b1nom * rb1 * gamma) + sq (offset - b0))) *
+          (dsinc (tp * Real.sqrt (sq (b1nom * rb1 * gamma) + sq (offset - b0))) *
+            (tp * (b1nom * rb1 * gamma * (b1nom * gamma) /
+              Real.sqrt (sq (b1nom * rb1 * gamma) + sq (offset - b0))))))) := rfl
+theorem wasabi_dc_eq_one (b0 rb1 c d offset tp b1nom gamma : ℝ) : wasabi_dc b0 rb1 c d offset tp b1nom gamma = 1 := rfl
+theorem wasabi_dd_eq (b0 rb1 c d offset tp b1nom gamma : ℝ) : wasabi_dd b0 rb1 c d offset tp b1nom gamma =
+    -(sq (Real.pi * (b1nom * rb1) * gamma * tp) *
+      sq (sinc (tp * Real.sqrt (sq (b1nom * rb1 * gamma) + sq (offset - b0))))) := rfl
+
+/-- `∂/∂b0` of the radicand `(b1·γ)² + (offset − b0)²` -/
+theorem hasDerivAt_radicand_b0 (B offset b0 : ℝ) :
+    HasDerivAt (fun b : ℝ => sq B + sq (offset - b)) (-(2 * (offset - b0))) b0 := by
+  have hd : HasDerivAt (fun b : ℝ => offset - b) (-1) b0 := (hasDerivAt_id' b0).const_sub offset
+  have H := (hd.fun_mul hd).const_add (sq B)
+  exact H.congr_deriv (by ring)
+
+/-- `∂/∂rb1` of the radicand `(b1nom·rb1·γ)² + (offset − b0)²` -/
+theorem hasDerivAt_radicand_rb1 (b1nom gamma D rb1 : ℝ) :
+    HasDerivAt (fun r : ℝ => sq (b1nom * r * gamma) + sq D) (2 * (b1nom * rb1 * gamma * (b1nom * gamma))) rb1 := by
+  have hd : HasDerivAt (fun r : ℝ => b1nom * r * gamma) (b1nom * 1 * gamma) rb1 :=
+    ((hasDerivAt_id' rb1).const_mul b1nom).mul_const gamma
+  have H := (hd.fun_mul hd).add_const (sq D)
+  exact H.congr_deriv (by ring)
+
+theorem wasabi_hasDerivAt_b0 (b0 rb1 c d offset tp b1nom gamma : ℝ)
+    (hx : tp * Real.sqrt ((b1nom * rb1 * gamma) ^ 2 + (offset - b0) ^ 2) ≠ 0) :
+    HasDerivAt (fun b => wasabi b rb1 c d offset tp b1nom gamma) (wasabi_db0 b0 rb1 c d offset tp b1nom gamma) b0 := by
+  have hx' : tp * Real.sqrt (sq (b1nom * rb1 * gamma) + sq (offset - b0)) ≠ 0 := by
+    simpa only [sq_eq, pow_two] using hx
+  have hS := hasDerivAt_sq_sinc_sqrt tp (hasDerivAt_radicand_b0 (b1nom * rb1 * gamma) offset b0) hx'
+  have H := (hS.const_mul (d * sq (Real.pi * (b1nom * rb1) * gamma * tp))).const_sub c
+  refine H.congr_deriv ?_
+  rw [wasabi_db0_eq]
+  ring
+
+theorem wasabi_hasDerivAt_rb1 (b0 rb1 c d offset tp b1nom gamma : ℝ)
+    (hx : tp * Real.sqrt ((b1nom * rb1 * gamma) ^ 2 + (offset - b0) ^ 2) ≠ 0) :
+    HasDerivAt (fun r => wasabi b0 r c d offset tp b1nom gamma) (wasabi_drb1 b0 rb1 c d offset tp b1nom gamma) rb1 := by
+  have hx' : tp * Real.sqrt (sq (b1nom * rb1 * gamma) + sq (offset - b0)) ≠ 0 := by
+    simpa only [sq_eq, pow_two] using hx
+  have hS := hasDerivAt_sq_sinc_sqrt tp (hasDerivAt_radicand_rb1 b1nom gamma (offset - b0) rb1) hx'
+  have hw : HasDerivAt (fun r : ℝ => Real.pi * (b1nom * r) * gamma * tp) (Real.pi * (b1nom * 1) * gamma * tp) rb1 :=
+    ((((hasDerivAt_id' rb1).const_mul b1nom).const_mul Real.pi).mul_const gamma).mul_const tp
+  have H := (((hw.fun_mul hw).const_mul d).fun_mul hS).const_sub c
+  refine H.congr_deriv ?_
+  rw [wasabi_drb1_eq]
+  simp only [sq_eq]
+  ring
+
+theorem wasabi_hasDerivAt_c (b0 rb1 c d offset tp b1nom gamma : ℝ) :
+    HasDerivAt (fun v => wasabi b0 rb1 v d offset tp b1nom gamma) (wasabi_dc b0 rb1 c d offset tp b1nom gamma) c :=
+  (hasDerivAt_id' c).sub_const _
+
+theorem wasabi_hasDerivAt_d (b0 rb1 c d offset tp b1nom gamma : ℝ) :
+    HasDerivAt (fun v => wasabi b0 rb1 c v offset tp b1nom gamma) (wasabi_dd b0 rb1 c d offset tp b1nom gamma) d := by
+  have H := (((hasDerivAt_id' d).mul_const (sq (Real.pi * (b1nom * rb1) * gamma * tp))).mul_const
+    (sq (sinc (tp * Real.sqrt (sq (b1nom * rb1 * gamma) + sq (offset - b0)))))).const_sub c
+  refine H.congr_deriv ?_
+  rw [wasabi_dd_eq]
+  ring
+
+/-! #### WASABITI -/
+theorem wasabiti_eq (b0 rb1 t1 offset trec tp b1nom gamma : ℝ) : wasabiti b0 rb1 t1 offset trec tp b1nom gamma =
+    (1 - Real.exp (-trec / t1)) * (1 - 2 * sq (Real.pi * (b1nom * rb1) * gamma * tp) *
+      sq (sinc (tp * Real.sqrt (sq (b1nom * rb1 * gamma) + sq (offset - b0))))) := rfl
+theorem wasabiti_db0_eq (b0 rb1 t1 offset trec tp b1nom gamma : ℝ) :
+    wasabiti_db0 b0 rb1 t1 offset trec tp b1nom gamma =
+    (1 - Real.exp (-trec / t1)) * -(2 * sq (Real.pi * (b1nom * rb1) * gamma * tp) *
+      (2 * sinc (tp * Real.sqrt (sq (b1nom * rb1 * gamma) + sq (offset - b0))) *
+        (dsinc (tp * Real.sqrt (sq (b1nom * rb1 * gamma) + sq (offset - b0))) *
+          (tp * (-((offset - b0) / Real.sqrt (sq (b1nom * rb1 * gamma) + sq (offset - b0)))))))) := rfl
+theorem wasabiti_drb1_eq (b0 rb1 t1 offset trec tp b1nom gamma : ℝ) :
+    wasabiti_drb1 b0 rb1 t1 offset trec tp b1nom gamma =
+    (1 - Real.exp (-trec / t1)) * -(2 * (2 * (Real.pi * (b1nom * rb1) * gamma * tp) * (Real.pi * b1nom * gamma * tp) *
+        sq (sinc (tp * Real.sqrt (sq (b1nom * rb1 * gamma) + sq (offset - b0)))) +
+      sq (Real.pi * (b1nom * rb1) * gamma * tp) *
+        (2 * sinc (tp * Real.sqrt (sq (b1nom * rb1 * gamma) + sq (offset - b0))) *
+          (dsinc (tp * Real.sqrt (sq (b1nom * rb1 * gamma) + sq (offset - b0))) *
+            (tp * (b1nom * rb1 * gamma * (b1nom * gamma) /
+              Real.sqrt (sq (b1nom * rb1 * gamma) + sq (offset - b0)))))))) := rfl
+theorem wasabiti_dt1_eq (b0 rb1 t1 offset trec tp b1nom gamma : ℝ) :
+    wasabiti_dt1 b0 rb1 t1 offset trec tp b1nom gamma =
+    -(Real.exp (-trec / t1) * (trec / (t1 * t1))) * (1 - 2 * sq (Real.pi * (b1nom * rb1) * gamma * tp) *
+      sq (sinc (tp * Real.sqrt (sq (b1nom * rb1 * gamma) + sq (offset - b0))))) := rfl
+
+theorem wasabiti_hasDerivAt_b0 (b0 rb1 t1 offset trec tp b1nom gamma : ℝ)
+    (hx : tp * Real.sqrt ((b1nom * rb1 * gamma) ^ 2 + (offset - b0) ^ 2) ≠ 0) :
+    HasDerivAt (fun b => wasabiti b rb1 t1 offset trec tp b1nom gamma)
+      (wasabiti_db0 b0 rb1 t1 offset trec tp b1nom gamma) b0 := by
+  have hx' : tp * Real.sqrt (sq (b1nom * rb1 * gamma) + sq (offset - b0)) ≠ 0 := by
+    simpa only [sq_eq, pow_two] using hx
+  have hS := hasDerivAt_sq_sinc_sqrt tp (hasDerivAt_radicand_b0 (b1nom * rb1 * gamma) offset b0) hx'
+  have H := ((hS.const_mul (2 * sq (Real.pi * (b1nom * rb1) * gamma * tp))).const_sub 1).const_mul
+    (1 - Real.exp (-trec / t1))
+  refine H.congr_deriv ?_
+  rw [wasabiti_db0_eq]
+  ring
+
+theorem wasabiti_hasDerivAt_rb1 (b0 rb1 t1 offset trec tp b1nom gamma : ℝ)
+    (hx : tp * Real.sqrt ((b1nom * rb1 * gamma) ^ 2 + (offset - b0) ^ 2) ≠ 0) :
+    HasDerivAt (fun r => wasabiti b0 r t1 offset trec tp b1nom gamma)
+      (wasabiti_drb1 b0 rb1 t1 offset trec tp b1nom gamma) rb1 := by
+  have hx' : tp * Real.sqrt (sq (b1nom * rb1 * gamma) + sq (offset - b0)) ≠ 0 := by
+    simpa only [sq_eq, pow_two] using hx
+  have hS := hasDerivAt_sq_sinc_sqrt tp (hasDerivAt_radicand_rb1 b1nom gamma (offset - b0) rb1) hx'
+  have hw : HasDerivAt (fun r : ℝ => Real.pi * (b1nom * r) * gamma * tp) (Real.pi * (b1nom * 1) * gamma * tp) rb1 :=
+    ((((hasDerivAt_id' rb1).const_mul b1nom).const_mul Real.pi).mul_const gamma).mul_const tp
+  have H := ((((hw.fun_mul hw).const_mul 2).fun_mul hS).const_sub 1).const_mul (1 - Real.exp (-trec / t1))
+  refine H.congr_deriv ?_
+  rw [wasabiti_drb1_eq]
+  simp only [sq_eq]
+  ring
+
+theorem wasabiti_hasDerivAt_t1 (b0 rb1 t1 offset trec tp b1nom gamma : ℝ) (h : t1 ≠ 0) :
+    HasDerivAt (fun t => wasabiti b0 rb1 t offset trec tp b1nom gamma)
+      (wasabiti_dt1 b0 rb1 t1 offset trec tp b1nom gamma) t1 := by
+  have H := (((hasDerivAt_const_div (-trec) t1 h).exp).const_sub 1).mul_const
+    (1 - 2 * sq (Real.pi * (b1nom * rb1) * gamma * tp) *
+      sq (sinc (tp * Real.sqrt (sq (b1nom * rb1 * gamma) + sq (offset - b0)))))
+  refine H.congr_deriv ?_
+  rw [wasabiti_dt1_eq]
+  ring
+
 end M
